@@ -139,22 +139,39 @@ def run(ctx):
                 mod=fi_info.module, node=fi_info.node, function=fq_info, expected="encrypted_cek", found=repr(rec[2]))
         # key-wrap algorithm codes
         kwc = repo.func(ENC, "Encryptor._kw_alg_convert")
-        kouts = ev0.outcomes(kwc)
-        sets = [e for o in kouts for e in all_effects(o.effects) if isinstance(e, App) and e.op == "eff:setattr"
-                and e.args[1] == Const("cose_kw_alg")]
-        table = {}
+        kouts = [o for o in ev0.outcomes(kwc) if o.kind == "return"]
+        from sa.teval import teval as _teval, Unknown as _Unknown
+        # decision table: the value stored for each member of the key-wrap enumeration (whatever the shape of the selection code)
+        members = {}
         for o in kouts:
-            for e, guards in _effects_with_guards(o.effects):
-                if isinstance(e, App) and e.op == "eff:setattr" and e.args[1] == Const("cose_kw_alg"):
-                    for g, pol in guards:
-                        if isinstance(g, App) and g.op == "==" and isinstance(g.args[1], App) and g.args[1].op == "enum":
-                            table[(g.args[1].args[1].v, pol)] = e.args[2]
+            for t in list(o.conds) + list(o.heap.values()):
+                for s_ in subterms(t):
+                    if isinstance(s_, App) and s_.op == "enum" and isinstance(s_.args[0], Ref) and s_.args[0].obj.name == "SuitKWAlgorithms":
+                        members[s_.args[1].v] = s_
+        cls_kw = next((m.args[0].obj for m in members.values()), None)
+        if cls_kw is not None:
+            for nm, _v in ev0.enum_members(cls_kw):
+                members.setdefault(nm, ev0.enum_member(cls_kw, nm))
+        table = {}
+        selfp = P("self")
+        for name_, mt in members.items():
+            env = {m2: ("member", n2) for n2, m2 in members.items()}
+            env["param:kw_alg"] = ("member", name_)
+            for o in kouts:
+                try:
+                    if not all(_teval(c, env) for c in o.conds):
+                        continue
+                    stored = o.heap.get((selfp, "cose_kw_alg"))
+                    table[name_] = _teval(stored, env) if stored is not None else None
+                except _Unknown as ex:
+                    table[name_] = f"not decided ({ex})"
+        if not members or len(table) != len(members):
+            raise AnalysisError(f"{ctx.fq(kwc)}: key-wrap selection not recognised ({sorted(members)} / {table})")
         R.rule("C06-D4b key-wrap codes", 2, "DIRECT -> -6, A256KW -> -5")
-        R.check("C06-D4b key-wrap codes", table.get(("A256KW", True)) == Const(-5), "A256KW -> -5", mod=kwc.module, node=kwc.node,
-                function=ctx.fq(kwc), expected="-5", found=repr(table.get(("A256KW", True))))
-        other = table.get(("A256KW", False), table.get(("DIRECT", True)))
-        R.check("C06-D4b key-wrap codes", other == Const(-6), "DIRECT -> -6", mod=kwc.module, node=kwc.node, function=ctx.fq(kwc),
-                expected="-6", found=repr(other))
+        R.check("C06-D4b key-wrap codes", table.get("A256KW") == -5, "A256KW -> -5", mod=kwc.module, node=kwc.node,
+                function=ctx.fq(kwc), expected="-5", found=repr(table.get("A256KW")))
+        R.check("C06-D4b key-wrap codes", table.get("DIRECT") == -6, "DIRECT -> -6", mod=kwc.module, node=kwc.node, function=ctx.fq(kwc),
+                expected="-6", found=repr(table.get("DIRECT")))
 
     # ---------------------------------------------------------------- D1: AAD literal
     R.rule("C06-D1 AAD = Enc_structure of the emitted header", 1, "literal == cbor(['Encrypt', protected bstr, h''])")
